@@ -7,17 +7,25 @@
 (*             "funcs" publishes only free functions (no type at all),     *)
 (*             "types" publishes only types without any function (enums),  *)
 (*             "empty" publishes nothing,                                  *)
+(*             "foreign" publishes classes, but was built for ANOTHER      *)
+(*                     module (interrogate -module other),                 *)
 (*           and a digraph `orig` over them (edge a -> b: a class of       *)
 (*           library a derives from, or is a typedef of, a class of        *)
 (*           library b; so edges only join libraries of kind "both").      *)
 (*           Numeric order = std::string order of the library names, which *)
 (*           is the iteration order of the std::map / std::set the code    *)
 (*           uses.  A library CONTRIBUTES to the module iff its kind is    *)
-(*           not "empty"; the property speaks about exactly those.         *)
+(*           neither "empty" nor "foreign": a library of another module    *)
+(*           does not contribute to this one (referencing it would pull    *)
+(*           Dtool_<lib>_RegisterTypes / <lib>_moddef of a library that is *)
+(*           not part of the extension into PyInit_<module>); the property *)
+(*           speaks about exactly the contributing ones.                   *)
 (* KEYS    = the keys of `dependencies` as the two loops at the top of     *)
 (*           write_python_table_native collect them:                       *)
 (*             for every function: if it has a library name -> a key       *)
-(*               (no module filter: the code has it commented out)         *)
+(*               of THIS module (FunctionLoopFiltersModule; FALSE = the    *)
+(*               code before c16-fix-3, where the filter is commented out  *)
+(*               and libraries of other modules become keys too)           *)
 (*             for every global type of THIS module with a library name    *)
 (*               -> a key, plus its cross-library base/typedef edges       *)
 (*           KeysAreContributors says the two loops find every             *)
@@ -60,6 +68,8 @@
 (***************************************************************************)
 EXTENDS Naturals, Sequences, FiniteSets, TLC
 
+CONSTANT FunctionLoopFiltersModule
+
 VARIABLES
   kind,       \* the input: [1..n -> {"both", "funcs", "types", "empty"}]
   orig,       \* the input digraph: [1..n -> SUBSET 1..n]
@@ -73,14 +83,15 @@ VARIABLES
 
 vars == <<kind, orig, deps, placed, pc, idx, addedAny, broken, cycles, nreports>>
 
-Kinds == {"both", "funcs", "types", "empty"}
+Kinds == {"both", "funcs", "types", "empty", "foreign"}
 AllLibs == DOMAIN kind
-HasFunctions(l) == kind[l] \in {"both", "funcs"}
-HasTypes(l) == kind[l] \in {"both", "types"}
-Contributing == {l \in AllLibs : kind[l] # "empty"}
+HasFunctions(l) == kind[l] \in {"both", "funcs", "foreign"}
+HasTypes(l) == kind[l] \in {"both", "types", "foreign"}
+ThisModule(l) == kind[l] # "foreign"
+Contributing == {l \in AllLibs : kind[l] \notin {"empty", "foreign"}}
 \* the two loops that fill `dependencies`
-FunctionLoopKeys == {l \in AllLibs : HasFunctions(l)}
-TypeLoopKeys == {l \in AllLibs : HasTypes(l)}
+FunctionLoopKeys == {l \in AllLibs : HasFunctions(l) /\ (ThisModule(l) \/ ~FunctionLoopFiltersModule)}
+TypeLoopKeys == {l \in AllLibs : HasTypes(l) /\ ThisModule(l)}
 Libs == FunctionLoopKeys \cup TypeLoopKeys          \* the keys of `dependencies`
 N == Cardinality(Libs)
 
